@@ -65,7 +65,10 @@ class Net:
 
     # --- view for the spec -------------------------------------------------
     def tla(self):
-        return {"inputs": [list(t) for t in self.inputs], "output": list(self.output), "dim": list(self.dims)}
+        lab = [self.lab[ix] for ix in range(1, self.K + 1)]
+        order = sorted(lab)
+        return {"inputs": [list(t) for t in self.inputs], "output": list(self.output), "dim": list(self.dims),
+                "rank": [order.index(x) + 1 for x in lab]}
 
     def to_json(self):
         return {"inputs": [list(t) for t in self.inputs], "output": list(self.output),
